@@ -3,8 +3,10 @@ package rules
 import (
 	"fmt"
 	"go/ast"
+	"go/constant"
 	"go/token"
 	"go/types"
+	"math"
 	"os"
 	"strings"
 
@@ -28,6 +30,7 @@ func runC01(c *Ctx) {
 	c.helperChain()
 	c.boundComputation()
 	c.malformedAnnotationMeansNoSlots()
+	c.extremeHelpers()
 	if r := c.ReconcileRoles(); r != nil {
 		c.boundIsHelperResult(r, "C01.2-bound")
 		c.storeClassesAs(r, "C01.2")
@@ -462,4 +465,272 @@ func (c *Ctx) malformedAnnotationMeansNoSlots() {
 		}
 	}
 	c.Floor(rule+"-decode-sites", n, 1)
+}
+
+// extremeHelpers: "highest/lowest ordinal ... agrees with it": GetMaxPodOrdinal and GetMinPodOrdinal fold the set
+// GetPodOrdinals(replicas, set) returns: one result variable, started below (above) every possible ordinal, is given the
+// element of the iteration exactly when that element is greater (smaller) than it, and is what is returned.
+func (c *Ctx) extremeHelpers() {
+	const rule = "C01.1-extreme-of-the-ordinal-set"
+	po := c.Func(load.HelperPkg, "GetPodOrdinals")
+	if po == nil {
+		return
+	}
+	n := 0
+	for _, spec := range []struct {
+		name string
+		max  bool
+	}{{"GetMaxPodOrdinal", true}, {"GetMinPodOrdinal", false}} {
+		fi := c.Func(load.HelperPkg, spec.name)
+		if fi == nil {
+			continue
+		}
+		n++
+		fn, an := c.Analysis(fi)
+		info := fi.Pkg.TypesInfo
+		var params []*ast.Ident
+		for _, pf := range fi.Decl.Type.Params.List {
+			params = append(params, pf.Names...)
+		}
+		// the loop over GetPodOrdinals(<own parameters>)
+		var loop *ast.RangeStmt
+		ownNodes(fi.Decl.Body, func(x ast.Node) {
+			if rs, ok := x.(*ast.RangeStmt); ok && loop == nil {
+				src := ast.Unparen(defRHSOr(fi, info, rs.X))
+				if call, ok := src.(*ast.CallExpr); ok {
+					if f := gf.StaticCallee(info, call); f != nil && f.Origin() == po.Obj && len(call.Args) == len(params) {
+						same := true
+						for i, a := range call.Args {
+							if fn.Term(a).Key() != fn.Term(params[i]).Key() {
+								same = false
+							}
+						}
+						if same {
+							loop = rs
+						}
+					}
+				}
+			}
+		})
+		if loop == nil || loop.Key == nil || loop.Value != nil {
+			// the other way of saying it: the last (first) element of the sorted List() of that set, when there is one
+			if c.extremeOfSortedList(fi, fn, an, po, params, spec.name, spec.max) {
+				c.OK(rule, spec.name, fi.Decl.Pos(), "the "+map[bool]string{true: "last", false: "first"}[spec.max]+" element of GetPodOrdinals(replicas, set).List(), which is sorted, when the set is not empty")
+			} else {
+				c.Bad(rule, spec.name, fi.Decl.Pos(), "neither a fold over the elements of GetPodOrdinals(replicas, set) nor the end of its sorted List()")
+			}
+			continue
+		}
+		key, _ := loop.Key.(*ast.Ident)
+		// the result variable: returned by every return
+		var res types.Object
+		okRet := true
+		ownNodes(fi.Decl.Body, func(x ast.Node) {
+			if r, ok := x.(*ast.ReturnStmt); ok {
+				id, isID := (ast.Expr)(nil), false
+				if len(r.Results) == 1 {
+					id, isID = ast.Unparen(r.Results[0]).(*ast.Ident)
+				}
+				if !isID || (res != nil && info.ObjectOf(id.(*ast.Ident)) != res) {
+					okRet = false
+					return
+				}
+				res = info.ObjectOf(id.(*ast.Ident))
+			}
+		})
+		if key == nil || res == nil || !okRet {
+			c.Bad(rule, spec.name, fi.Decl.Pos(), "the function does not return one result variable")
+			continue
+		}
+		// writes of the result variable: one before the loop (a constant beyond every ordinal), the rest inside the loop `res = key`
+		good, why := true, ""
+		var stores []*ast.AssignStmt
+		nInit := 0
+		ast.Inspect(fi.Decl.Body, func(x ast.Node) bool {
+			switch y := x.(type) {
+			case *ast.AssignStmt:
+				for i, l := range y.Lhs {
+					if id, ok := l.(*ast.Ident); ok && info.ObjectOf(id) == res {
+						if contains(loop, y) {
+							if len(y.Rhs) == len(y.Lhs) && fn.Term(y.Rhs[i]).Key() == fn.Term(key).Key() && y.Tok == token.ASSIGN {
+								stores = append(stores, y)
+							} else {
+								good, why = false, "inside the loop the result is given something other than the element of the iteration"
+							}
+						} else if y.Pos() < loop.Pos() && len(y.Rhs) == len(y.Lhs) {
+							nInit++
+							tv, ok := info.Types[y.Rhs[i]]
+							if !ok || tv.Value == nil {
+								good, why = false, "the start value is not a constant"
+							} else if v, exact := constant.Int64Val(constant.ToInt(tv.Value)); !exact || (spec.max && v > -1) || (!spec.max && v < math.MaxInt32) {
+								good, why = false, "the start value "+tv.Value.ExactString()+" is not beyond every possible ordinal"
+							}
+						} else {
+							good, why = false, "the result is written after the loop"
+						}
+					}
+				}
+			case *ast.IncDecStmt:
+				if id, ok := y.X.(*ast.Ident); ok && info.ObjectOf(id) == res {
+					good, why = false, "the result is stepped"
+				}
+			}
+			return true
+		})
+		if good && (nInit != 1 || len(stores) == 0) {
+			good, why = false, "the result is not started once before the loop and taken from the elements inside it"
+		}
+		if good {
+			better := gf.FLt(fn.Term(res2ident(fi, info, res)), fn.Term(key))
+			if !spec.max {
+				better = gf.FLt(fn.Term(key), fn.Term(res2ident(fi, info, res)))
+			}
+			for _, st := range stores {
+				weak := gf.Or(better, gf.FEq(fn.Term(key), fn.Term(res2ident(fi, info, res))))
+				if g, _ := an.StateBefore(st).Implies(weak); !g {
+					good, why = false, "the element is taken although it is not "+map[bool]string{true: "greater", false: "smaller"}[spec.max]+" than what has been found so far"
+				}
+			}
+			// and an element that is better is never passed over
+			if head := loopHead(fn, loop); head != nil && len(loop.Body.List) > 0 && good {
+				var stops []ast.Node
+				for _, st := range stores {
+					stops = append(stops, st)
+				}
+				start := loop.Body.List[0]
+				aG := fn.FromUntil(start, an.StateBefore(start).Assume(better), stops...)
+				if aG.BlockReached(head) {
+					good, why = false, "an element "+map[bool]string{true: "greater", false: "smaller"}[spec.max]+" than what has been found so far can be passed over"
+				}
+			}
+		}
+		c.Check(good, rule, spec.name, fi.Decl.Pos(), "a fold over GetPodOrdinals(replicas, set) that keeps the "+map[bool]string{true: "greatest", false: "smallest"}[spec.max]+" element",
+			spec.name+" does not return the "+map[bool]string{true: "highest", false: "lowest"}[spec.max]+" member of the ordinal set: "+why)
+	}
+	c.Floor(rule+"-helpers", n, 2)
+}
+
+// res2ident: some identifier of fi's body that denotes obj (for building terms).
+func res2ident(fi *load.FuncInfo, info *types.Info, obj types.Object) *ast.Ident {
+	var out *ast.Ident
+	ast.Inspect(fi.Decl.Body, func(x ast.Node) bool {
+		if id, ok := x.(*ast.Ident); ok && out == nil && info.ObjectOf(id) == obj {
+			out = id
+		}
+		return out == nil
+	})
+	return out
+}
+
+// extremeOfSortedList: L := GetPodOrdinals(<own parameters>).List(); the one result variable starts at a constant beyond
+// every ordinal, every other store into it is L[len(L)-1] (max) resp. L[0] (min), and with L non-empty and that element
+// better than the start value no return is reachable without such a store.
+func (c *Ctx) extremeOfSortedList(fi *load.FuncInfo, fn *gf.Fn, an *gf.Analysis, po *load.FuncInfo, params []*ast.Ident, name string, max bool) bool {
+	info := fi.Pkg.TypesInfo
+	var list *ast.Ident
+	var listDef ast.Stmt
+	ownNodes(fi.Decl.Body, func(x ast.Node) {
+		as, ok := x.(*ast.AssignStmt)
+		if !ok || len(as.Lhs) != 1 || len(as.Rhs) != 1 || list != nil {
+			return
+		}
+		call, ok := ast.Unparen(as.Rhs[0]).(*ast.CallExpr)
+		if !ok {
+			return
+		}
+		sel, ok := call.Fun.(*ast.SelectorExpr)
+		if !ok || sel.Sel.Name != "List" {
+			return
+		}
+		src, ok := ast.Unparen(defRHSOr(fi, info, sel.X)).(*ast.CallExpr)
+		if !ok {
+			return
+		}
+		if f := gf.StaticCallee(info, src); f == nil || f.Origin() != po.Obj || len(src.Args) != len(params) {
+			return
+		}
+		for i, a := range src.Args {
+			if fn.Term(a).Key() != fn.Term(params[i]).Key() {
+				return
+			}
+		}
+		list, _ = as.Lhs[0].(*ast.Ident)
+		listDef = as
+	})
+	if list == nil {
+		return false
+	}
+	var res types.Object
+	okRet := true
+	ownNodes(fi.Decl.Body, func(x ast.Node) {
+		if r, ok := x.(*ast.ReturnStmt); ok {
+			if len(r.Results) != 1 {
+				okRet = false
+				return
+			}
+			id, isID := ast.Unparen(r.Results[0]).(*ast.Ident)
+			if !isID || (res != nil && info.ObjectOf(id) != res) {
+				okRet = false
+				return
+			}
+			res = info.ObjectOf(id)
+		}
+	})
+	if res == nil || !okRet {
+		return false
+	}
+	resID := res2ident(fi, info, res)
+	elem := c.TryWantTerm(fn, listDef.End(), "$1[len($1)-1]", list)
+	if !max {
+		elem = c.TryWantTerm(fn, listDef.End(), "$1[0]", list)
+	}
+	if elem == nil {
+		return false
+	}
+	good := true
+	var stores []ast.Node
+	nInit := 0
+	ast.Inspect(fi.Decl.Body, func(x ast.Node) bool {
+		as, ok := x.(*ast.AssignStmt)
+		if !ok {
+			return true
+		}
+		for i, l := range as.Lhs {
+			id, ok := l.(*ast.Ident)
+			if !ok || info.ObjectOf(id) != res || len(as.Rhs) != len(as.Lhs) {
+				continue
+			}
+			if as.Pos() < listDef.Pos() {
+				nInit++
+				tv, ok := info.Types[as.Rhs[i]]
+				if !ok || tv.Value == nil {
+					good = false
+				} else if v, exact := constant.Int64Val(constant.ToInt(tv.Value)); !exact || (max && v > -1) || (!max && v < math.MaxInt32) {
+					good = false
+				}
+				continue
+			}
+			if g, _ := an.StateBefore(as).Implies(gf.FEq(fn.Term(as.Rhs[i]), elem)); !g {
+				good = false
+			}
+			stores = append(stores, as)
+		}
+		return true
+	})
+	if !good || nInit != 1 || len(stores) == 0 {
+		return false
+	}
+	better := gf.FLt(fn.Term(resID), elem)
+	if !max {
+		better = gf.FLt(elem, fn.Term(resID))
+	}
+	nonEmpty := gf.FLt(gf.ConstInt(0), gf.LenOf(fn.Term(list)))
+	aG := fn.FromAfterUntil(listDef, an.StateAfter(listDef).Assume(gf.And(nonEmpty, better)), stores...)
+	escaped := false
+	ownNodes(fi.Decl.Body, func(x ast.Node) {
+		if r, ok := x.(*ast.ReturnStmt); ok && aG.StateBefore(r).Reachable() {
+			escaped = true
+		}
+	})
+	return !escaped
 }
